@@ -85,6 +85,15 @@ def run(pid, tier, seed, replay):
         m["evs"] = m["evs"] + [m["classes"][0]["states"][0]["id"], "send"]
     consts = {"NI": 1, "MaxCalls": 3, "MaxFails": 0, "MaxActs": 0}
     ec.mc_run(chk, fam, consts, required=("MCCall", "MCSelect", "MCUnwind", "MCAssign"), label="entry-point family")
+    hs = ec.hist_scenarios(chk, fam, consts, limit=800 if quick else 10000)
+    styles = ["send", "event", "events_item", "allowed_item", "bound"]
+    for scn in hs:      # the specification's behaviours, each call in a randomly chosen calling style
+        declared = set(scn["classes"][0]["evlist"])
+        for st in scn["steps"]:
+            if st["op"] == "call" and st.get("api") == "send" and st.get("ev") in declared:
+                st["api"] = rng.choice(styles)
+    ec.run_validate(chk, hs, "entry points: spec-behaviour replay in mixed calling styles", shards=4 if quick else 12,
+                    featurize=featurize)
     spied = []
 
     def on_result(scn, res):
